@@ -817,13 +817,12 @@ class RDD:
         if numPartitions is None:
             numPartitions = self.getNumPartitions()
 
-        d1 = dict(self.collect())
-        d2 = dict(other.collect())
-        keys = set(d1.keys()) & set(d2.keys())
-        return self.context.parallelize((
-            (k, (d1[k], d2[k]))
-            for k in keys
-        ), numPartitions)
+        d_other = other.groupByKey().collectAsMap()
+        return self.groupByKey(numPartitions).flatMap(lambda kv: [
+            (kv[0], (v_self, v_other))
+            for v_self in kv[1]
+            for v_other in (d_other[kv[0]] if kv[0] in d_other else [])
+        ])
 
     def keyBy(self, f):
         """key by f
